@@ -39,8 +39,11 @@ def max_coeff_diff(a, b):
 def random_poly_ham(rng, degree, name, real):
     from hiten.system.hamiltonian import Hamiltonian
     H = {}
+    # half of the polynomials carry constant and linear terms (a generic polynomial, an observable, a coordinate series), the others start
+    # at degree 2 like a Hamiltonian expanded at an equilibrium
+    lo = 0 if rng.random() < 0.5 else 2
     for _ in range(int(rng.integers(5, 25))):
-        d = int(rng.integers(2, degree + 1))
+        d = int(rng.integers(lo, degree + 1))
         k = [0] * 6
         for v in rng.integers(0, 6, size=d):
             k[int(v)] += 1
